@@ -130,7 +130,7 @@ class Stochastic(BigSMILESbase):
 
     @property
     def generable(self):
-        for bond in self.bond_descriptors:
+        for bond in self.bond_descriptors + [self.left_terminal, self.right_terminal]:
             if not bond.generable:
                 return False
         for token in self.repeat_tokens + self.end_tokens:
